@@ -57,6 +57,10 @@ class BodyGen:
         if r < 0.85:
             n = self.rng.randint(2, 3)
             items = [self.lit() for _ in range(n)]
+            if self.rng.random() < 0.3:
+                # an element nothing can be inferred from (a call): it still occupies its position
+                items[self.rng.randrange(n)] = ("helper_call()", "unknown")
+                self.features.add(f"tuple-with-unknown@{ctx}")
             self.returns.append([k for _s, k in items])
             self.features.add(f"tuple@{ctx}")
             return ", ".join(s for s, _k in items)
@@ -307,6 +311,8 @@ def make_judge(chk: Check):
                             viols.append(Viol("inferred-result-missing-position", where, {"decl": d.path(), "position": p + 1, "kinds": sorted(kinds), "results": len(got), "source": g["src"][:600]}))
                             continue
                         for k in sorted(kinds):
+                            if k == "unknown":
+                                continue  # the position has to exist; nothing is claimed about its type
                             if not covers(got[p], k):
                                 viols.append(Viol("inferred-result-does-not-cover", f"{where}:{k}", {"decl": d.path(), "position": p + 1, "literal_kind": k, "stub_type": d.results[p].type.render() if d.results[p].type else None, "features": g["features"], "source": g["src"][:600]}))
                     if not pos and d.results:
